@@ -205,6 +205,23 @@ def groupop_pool(rng, crys, crystal):
     if not known(gt):
         seen.append(gt)
         add(gt)
+    # same rotation / translation, different site permutation data: an extra species appended (the shorter map is a prefix of the
+    # longer one - operations of two crystals on one lattice, e.g. fcc and rock salt), the last species dropped, two images swapped
+    im = tuple(tuple(m) for m in g.indexmap)
+    variants = [im + ((0,),)]
+    if len(im) > 1:
+        variants.append(im[:-1])
+    for c, m in enumerate(im):
+        if len(m) > 1:
+            mm = list(m)
+            mm[0], mm[1] = mm[1], mm[0]
+            variants.append(im[:c] + (tuple(mm),) + im[c + 1:])
+            break
+    for v in variants:
+        gv = crystal.GroupOp(g.rot.copy(), g.trans.copy(), g.cartrot.copy(), v)
+        if not known(gv):
+            seen.append(gv)
+            add(gv)
     if len(pick) > 1:
         p = pick[0] * pick[1]
         # products are compared only when clearly distinct from / identical in construction to the others
